@@ -5,7 +5,7 @@ exit 0  property held on everything analysed (KNOWN-FINDING lines possible)
 exit 1  >=1 violation not listed in known_findings.json; `VIOLATION property=<id> replay=<path>` per violation
 exit 2  analysis broken (driver does not compile, anchor vanished, floor not reached, negative control proved)
 """
-import sys, os, json, time, argparse, fnmatch, re, concurrent.futures as cf
+import sys, os, json, subprocess, time, argparse, fnmatch, re, concurrent.futures as cf
 
 VERIF = os.path.dirname(os.path.abspath(__file__))
 sys.path.insert(0, VERIF)
@@ -57,6 +57,12 @@ def main():
     tier = args.tier
     seed = int(os.environ.get("VERIF_SEED", "0") or 0)
     t0 = time.time()
+    # self-bootstrap: (re)build the extractor when it is missing or older than its source (setup.sh is idempotent, offline)
+    nm = os.path.join(VERIF, "bin", "nmlint"); src = os.path.join(VERIF, "tools", "nmlint.cc")
+    if not os.path.exists(nm) or os.path.getmtime(src) > os.path.getmtime(nm):
+        r = subprocess.run(["bash", os.path.join(VERIF, "setup.sh")], capture_output=True, text=True)
+        if r.returncode != 0:
+            print("analysis broken: setup.sh failed: " + r.stderr[-800:]); sys.exit(2)
     if args.replay:
         r = json.load(open(args.replay))
         print(json.dumps(r, indent=1))
